@@ -28,7 +28,7 @@ ASSUMPTIONS = [
     "iteration order pinned identically for every spelling",
 ]
 REPORT_COUNTERS = ["programs", "spellings_compared", "vector_entries", "family_union", "family_optional", "family_any",
-                   "family_annotated", "family_string", "family_generic", "family_literal", "all_at_once_compared"]
+                   "family_annotated", "family_string", "family_generic", "family_literal", "all_at_once_compared", "type_of_class_targets"]
 
 FAMILIES = ["union", "optional", "any", "annotated", "string", "generic", "literal"]
 
@@ -61,9 +61,11 @@ def gen_case(rng, params, idx):
     elif fam == "any":
         target = "object"
     elif fam == "annotated":
-        target = rng.choice(pool + [["U", *rng.sample(names + ["int"], 2)], ["L", 1, 2]])
+        target = rng.choice(pool + [["U", *rng.sample(names + ["int"], 2)], ["L", 1, 2], ["Ty", rng.choice(names + ["int"])],
+                                    ["Ty", rng.choice(names + ["int"])]])
     elif fam == "string":
-        target = rng.choice(names + ["int", "object", ["U", *rng.sample(names + ["int"], 2)]])
+        target = rng.choice(names + ["int", "object", ["U", *rng.sample(names + ["int"], 2)], ["Ty", rng.choice(names + ["int"])],
+                                    ["Ty", rng.choice(names + ["int"])]])
     elif fam == "generic":
         o = rng.choice(["list", "dict", "tuple", "Sequence", "Mapping"])
         a = rng.choice(["int", "str"] + names)
@@ -136,6 +138,8 @@ def spellings(fam, tx, env):
         if isinstance(tx, str):
             s = tx
             return [("object", a), ("'name'", s)]
+        if tx[0] == "Ty":
+            return [("object", a), ("'type[A]'", f"type[{tx[1]}]")]     # typing.Type[A] is not among the listed forms
         s = " | ".join(tx[1:])
         return [("object", a), ("'A | B'", s), ("'typing.Union[A, B]'", f"typing.Union[{', '.join(tx[1:])}]")]
     if fam == "generic":
@@ -184,6 +188,10 @@ def check_case(spec, res):
                                         ["t", ["v", 1], ["v", "a"]], ["t", ["v", "a"], ["v", "a"]], ["t", ["i", names[0]], ["v", "s"]],
                                         ["d"], ["d", [["v", "k"], ["v", 1]]], ["d", [["v", "k"], ["v", "a"]]],
                                         ["d", [["v", "k"], ["i", names[0]]]]]
+    if not isinstance(target, str) and target[0] == "Ty":
+        # classes passed as arguments
+        vals = vals + [["c", n] for n in names] + [["c", "int"], ["c", "bool"], ["c", "object"], ["c", "str"]]
+        res.count("type_of_class_targets")
     if spec["npos"] == 1:
         calls = [{"pos": [v], "kw": {}} for v in vals]
     else:
